@@ -191,6 +191,12 @@ theorem unionAllMarks_eq_nil : ∀ {sets : List (List String)}, unionAllMarks se
 
 /-! ### the shallow API -/
 
+/-- the top-level mark set of a value with canonical marker layers is canonical -/
+theorem msorted_marks_of_canon {v : Value} (hc : v.v.marksCanon) : MSorted v.marks := by
+  obtain ⟨t, p⟩ := v
+  cases p <;> first | exact MSorted.nil | exact hc.1
+
+
 theorem IsMarked_tie (ord : Ord) (v : Value) : Value_IsMarked ord v = .ok v.isMarked := by
   obtain ⟨t, p⟩ := v
   cases p <;> rfl
